@@ -429,7 +429,9 @@ PROPS["C11"] = {
     "assumptions": TABLE_ASSUME,
     "tiers": {
         "quick": [{"mode": "samples", "workers": 1}, {"mode": "rc", "cases": 200, "max_size": 100}],
-        "thorough": [{"mode": "samples", "workers": 1}, {"mode": "rc", "cases": 6000, "max_size": 100}],
+        "thorough": [{"mode": "samples", "workers": 1}, {"mode": "rc", "cases": 6000, "max_size": 100},
+                     {"mode": "big4g", "workers": 1, "kv": {"shapes": 1},
+                      "note": "block_builder -> block_init/block_iter round trip of a block above 4 GiB (64-bit restart array), shape drawn from the seed"}],
     },
 }
 
